@@ -122,6 +122,9 @@ Definition embed (l : list instr) : circ := map It l.
 Definition flattened_l (c : circ) : list instr := fuse (fst (flat_sh c [])).
 Definition flattened (c : circ) : circ := embed (flattened_l c).
 
+(* no SHIFT_COORDS is ever executed *)
+Definition noshift (c : circ) : bool := forallb (fun i => negb (is_shift i)) (flatten0 c).
+
 Definition is_flat (c : circ) : bool :=
   forallb (fun x => match x with It _ => true | Rep _ _ => false end) c.
 
